@@ -35,7 +35,10 @@ CrossLists == {Case("flat", g, "to+cc+bcc+audience", "cross-lists",
 GenericRoots == {Case("flat", c.lab.g, c.lab.t, "generic-root:" \o c.lab.shape, With(c.v, "type", Str(c.lab.g)))
                  : c \in {d \in SingleOK : d.lab.shape \in {"object", "actor", "iri", "link"} /\ d.lab.g \in {"Object", "Activity", "IntransitiveActivity", "Actor"}}}
                 \cup {Case("flat", g, "to", "generic-root:list", With(With(BaseV(g, 1), "type", Str(g)), "to", ListOf(<<ObjVal, I1, ActorVal>>))) : g \in {"Object", "Activity", "Actor"}}
-AllFlat == GenericRoots \cup SingleOK \cup ListCases \cup FrameCases \cup IdlessRoots \cup CrossLists
+\* roots without a type: the struct says what they are
+UntypedRoots == {Case("flat", c.lab.g, c.lab.t, "untyped-root:" \o c.lab.shape, [c.v EXCEPT !.p = Restrict(@, DOMAIN @ \ {"type"})])
+                 : c \in {d \in SingleOK : d.lab.shape \in {"object", "actor"} /\ d.lab.g \in {"Activity", "IntransitiveActivity", "Question", "Actor"}}}
+AllFlat == UntypedRoots \cup GenericRoots \cup SingleOK \cup ListCases \cup FrameCases \cup IdlessRoots \cup CrossLists
 GenInit == orig = NilItem /\ val = NilItem /\ phase = "gen"
 GenNext == FALSE /\ UNCHANGED vars
 ASSUME ndJsonSerialize("c16_cases.ndjson", SetToSeq(AllFlat))
